@@ -58,6 +58,8 @@ func (q *Quiescer) dump() []byte {
 	}
 }
 
+func runtimeStackAll(buf []byte) int { return runtime.Stack(buf, true) }
+
 func parseDump(d []byte) []G {
 	var out []G
 	for _, blk := range bytes.Split(d, []byte("\n\n")) {
